@@ -37,6 +37,7 @@ def check(ck):
               construct="scalar:invalid-raises")
     with ck.rule("R2"):
         scalars.check_guards(ck, repo, directions=("coerce_output",))
+        scalars.check_failure_exits(ck, repo, directions=("coerce_output",))
     with ck.rule("R3"):
         f = repo.func(OUT + "enum_coercer.py", "enum_coercer")
         fv = FuncView(f)
